@@ -163,7 +163,7 @@ def _json_default(o):
     try:
         from .exact import Exact
         if isinstance(o, Exact):
-            return "%d/%d" % (o.numerator, o.denominator)
+            return repr(o)
     except Exception:  # noqa: BLE001
         pass
     try:
